@@ -925,6 +925,38 @@ class Interp:
                     if not isinstance(p, Ptr):
                         raise Incomplete('store through %r' % (p,))
                     s.store(p, s.val(env, ins.a[0], ins.ty), ins.ty)
+                elif op == 'atomicrmw':
+                    # one abstract thread: read, combine, write back, deliver the old value
+                    p = s.val(env, ins.a[0], None)
+                    if not isinstance(p, Ptr):
+                        raise Incomplete('atomicrmw through %r' % (p,))
+                    old_ = s.load(p, ins.ty)
+                    v_ = s.val(env, ins.a[1], ins.ty)
+                    k_ = ins.x
+                    if k_ == 'xchg':
+                        new_ = v_
+                    elif k_ in ('add', 'sub', 'and', 'or', 'xor'):
+                        new_ = s.binop(k_, old_, v_, ins.ty)
+                    elif k_ in ('max', 'min', 'umax', 'umin') and isinstance(old_, int) and isinstance(v_, int):
+                        w_ = ins.ty[1]
+                        a_, b_ = (to_signed(old_, w_), to_signed(v_, w_)) if k_ in ('max', 'min') else (old_, v_)
+                        new_ = (old_ if (a_ >= b_) == (k_ in ('max', 'umax')) else v_)
+                    else:
+                        raise Incomplete('atomicrmw %s on %r' % (k_, old_))
+                    s.store(p, new_, ins.ty)
+                    env[ins.dst] = old_
+                elif op == 'cmpxchg':
+                    p = s.val(env, ins.a[0], None)
+                    if not isinstance(p, Ptr):
+                        raise Incomplete('cmpxchg through %r' % (p,))
+                    old_ = s.load(p, ins.x)
+                    cmp_ = s.val(env, ins.a[1], ins.x)
+                    ok_ = s.icmp('eq', old_, cmp_, ins.x)
+                    if ok_:
+                        s.store(p, s.val(env, ins.a[2], ins.x), ins.x)
+                    env[ins.dst] = [old_, int(bool(ok_))]
+                elif op == 'fence':
+                    pass
                 elif op == 'getelementptr':
                     base = s.val(env, ins.a[0], None)
                     idx = [s.val(env, i, ('i', 64)) for i in ins.a[1:]]
